@@ -187,7 +187,68 @@ theorem hooks_run_after_wake (k : Nat) (ops : List XOp) (op : XOp)
   rw [hx] at hp hc ⊢
   exact (closed_frames_ready hR hc p hp).1
 
+/-! ## traffic in both directions on one connection: the peer sends requests of its own (to the servers registered
+    with `start(servers)` / `rmc.connect(..., servers=[...])`, or to nobody) whose call ids come from the peer's own
+    counter — both ends count from 1, so they regularly EQUAL the ids of our outstanding calls. `XOp.peerRequest r`
+    = the receive loop got a REQUEST message `r` (any protocol, method, call id) and ran `handle_request` up to its
+    first await; `XOp.handlerEnd ok` = the executing `server.handle` returned / raised and the answer was sent. -/
+
+/-- a request of the peer is not a response: in ANY state, whatever its call id (in particular the id of an
+    outstanding call), it leaves `requests`, `responses`, the events and the suspended calls exactly as they were
+    and completes / wakes / warns nobody -/
+theorem peer_request_is_not_a_response (x : XState) (r : PeerReq) :
+    (xstep x (.peerRequest r)).1.core = x.core ∧ coreOuts (xstep x (.peerRequest r)).2 = [] :=
+  xstep_peerRequest_core x r
+
+/-- hence every request id, every completion and the whole call-matching state of a run with bidirectional traffic
+    (and any logout hooks) are those of the core machine on the run from which every peer request has been removed:
+    all theorems above (`C10_refines_spec`, `no_cross_talk`, `close_wakes_all`, ...) apply to it verbatim -/
+theorem peer_requests_affect_no_caller (k : Nat) (ops : List XOp) :
+    (xrun (xinit 1 k) ops).1.core = (run init ((coreOps ops).filter fun op => op != .recvRequest)).1 ∧
+      coreOuts (xrun (xinit 1 k) ops).2 = (run init ((coreOps ops).filter fun op => op != .recvRequest)).2 := by
+  have h := xrun_core (xinit 1 k) ops
+  have e : (xinit 1 k).core = init := rfl
+  rw [e, run_drop_requests] at h
+  exact h
+
+/-- every request of the peer is served exactly once, in the order received and under its own call id: it is handed
+    to a registered server's `handle`, or refused at once with the NotImplemented answer — whatever calls of ours are
+    outstanding under whatever ids, whatever the interleaving with responses, closures and hooks -/
+theorem peer_requests_served_once (k : Nat) (ops : List XOp) :
+    servedIds (xrun (xinit 1 k) ops).2 = (peerReqs ops).map (·.callId) :=
+  xrun_served (xinit 1 k) ops
+
+/-- which server: the one registered under the request's protocol id, if any; NotImplemented only if there is none -/
+theorem peer_request_goes_to_its_protocol (x : XState) (r : PeerReq) :
+    (∀ srv, serverFor x r.protocol = some srv →
+        srv ∈ x.servers ∧ protoOf srv = r.protocol ∧ (xstep x (.peerRequest r)).2 = [.dispatch srv r.method r.callId]) ∧
+    (serverFor x r.protocol = none →
+        (∀ srv ∈ x.servers, protoOf srv ≠ r.protocol) ∧ (xstep x (.peerRequest r)).2 = [.notImplemented r.protocol r.callId]) := by
+  refine ⟨fun srv h => ⟨List.mem_of_find?_eq_some h, by simpa using List.find?_some h, by simp [xstep, step, h]⟩, fun h => ⟨?_, by simp [xstep, step, h]⟩⟩
+  intro srv hs
+  have := List.find?_eq_none.mp h srv hs
+  simpa using this
+
+/-- the answer sent when a handler ends carries the call id (and protocol) of the request that handler was given, and
+    every answer of a run carries the call id of a peer request dispatched before it -/
+theorem handler_answer_carries_request_id (x : XState) (r : PeerReq) (ok : Bool) (h : x.handling = some r) :
+    (xstep x (.handlerEnd ok)).2 = [.answer r.protocol r.callId ok] := by
+  simp [xstep, h]
+
+theorem answers_are_to_dispatched_requests (k : Nat) (ops : List XOp) :
+    ∀ id ∈ answeredIds (xrun (xinit 1 k) ops).2, id ∈ servedIds (xrun (xinit 1 k) ops).2 := by
+  have := xrun_answered (xinit 1 k) ops [] (by simp [xinit]) (by simp [answeredIds])
+  simpa using this
+
 /-! non-vacuity -/
+example : (xrun (xinit 1 1) [.core (.call false), .core (.call false), .peerRequest ⟨80, 7, 1⟩, .handlerEnd true,
+    .peerRequest ⟨10, 7, 2⟩, .core (.recvResponse { mode := 1, protocol := 10, method := some 1, callId := 2, error := -1, body := [4] }),
+    .core (.recvResponse { mode := 1, protocol := 10, method := some 1, callId := 1, error := -1, body := [5] }),
+    .core (.wake 0), .core (.wake 1)]).2
+    = [.core (.sent 0 1), .core (.sent 1 2), .dispatch 0 7 1, .answer 80 1 true, .notImplemented 10 2, .core (.set 1), .core (.set 0),
+       .core (.done 0 (.body [5])), .core (.done 1 (.body [4]))] := by decide
+example : serverFor (xinit 1 2) 81 = some 1 ∧ serverFor (xinit 1 2) 10 = none := by decide
+example : peerReqs [.core (.call false), .peerRequest ⟨80, 7, 1⟩, .handlerEnd true, .peerRequest ⟨10, 7, 2⟩] = [⟨80, 7, 1⟩, ⟨10, 7, 2⟩] := by decide
 example : distinctLive init [.call false, .call false, .recvResponse { mode := 1, protocol := 10, method := some 1, callId := 2, error := -1, body := [1] },
     .wake 1, .cleanup, .wake 0] = true := by decide
 example : (run init [.call false, .call false, .recvResponse { mode := 1, protocol := 10, method := some 1, callId := 2, error := -1, body := [1] },
